@@ -256,7 +256,11 @@ worker_encode(worker_thread *thr, size_t *out_pos, worker_state state)
 	size_t in_pos = 0;
 	size_t in_size = 0;
 
-	VERIF_EV("WEncInit", thr->coder, VERIF_THR(thr), 0, 0, 0, 0);
+	VERIF_EV("WEncInit", thr->coder, VERIF_THR(thr),
+			thr->filters[0].id == LZMA_FILTER_DELTA
+				? ((const lzma_options_delta *)(
+					thr->filters[0].options))->dist
+				: 0, 0, 0, 0);
 
 	*out_pos = thr->block_options.header_size;
 	const size_t out_size = thr->outbuf->allocated;
